@@ -76,6 +76,12 @@ func (c19) Gen(rs uint64, tier string, race bool) interface{} {
 		a.Names = append(a.Names, fmt.Sprintf("s%d", i))
 		a.Seqs = append(a.Seqs, genResidues(r, l, a.Alphabet, lower, "-", 0.1))
 	}
+	if a.Alphabet == align.NUCLEOTIDS && r.Chance(0.15) {
+		// RNA: U is a nucleotide code too
+		for i := range a.Seqs {
+			a.Seqs[i] = strings.NewReplacer("T", "U", "t", "u").Replace(a.Seqs[i])
+		}
+	}
 	if a.Alphabet == align.AMINOACIDS {
 		s := []byte(a.Seqs[0])
 		s[0] = 'E'
@@ -330,7 +336,7 @@ func (c19) Run(ctx *Ctx, ci interface{}) (o Outcome) {
 				break
 			}
 			ss := t.bag.Sequences()
-			pa := align.NewPwAligner(ss[op.I%n], ss[op.J%n], op.N%2)
+			pa := align.NewPwAligner(ss[op.I%n], ss[op.J%n], []int{align.ALIGN_ALGO_SW, align.ALIGN_ALGO_ATG}[op.N%2])
 			pa.Alignment()
 			_ = pa.AlignmentStr()
 			_ = pa.MaxScore()
